@@ -21,14 +21,20 @@ class C03(Cfg):
                   "a deletion record removes every version of its row) is a semilattice; for any finite set of replicas and any sequence of directed pulls, when a full round "
                   "of all ordered pairs changes nothing all replicas are equal, a further pull transfers nothing, every replica holds the join of all initial replicas "
                   "(hence the same state for every schedule and arrival order) and the version shown for a row is the maximum of all versions any replica held, or nothing if the row was deleted. "
-                  "NOT proved: that the pull of the code refines the join (statement C03 for the code); it is refuted for the code as it is by decide-checked model traces, each replayed on real instances: "
+                  "Refinement (proved): for the executable model of synchronise_room with five switches off (#18 ingestion consults deletion records, synchronised deletion not room-scoped, "
+                  "deletion records not keyed by row id, #30 references for every announced row, room summary covering every entity) and every other switch as in the code, "
+                  "one pull changes the puller's rows and node deletion records to join(puller, source restricted to the room) - for replicas whose logs are the logs of their content (C09), "
+                  "with unique row ids, no stored row carrying a deletion record (C11), a signature standing for the record it signs, and members holding every right; without the log hypothesis "
+                  "the pull is the sequence of joins with the days whose daily hash differs. Hence, for the code with those five repairs, every schedule converges to the join of all replicas. "
+                  "NOT proved: that these hypotheses are re-established after every pull inside one induction over schedules (pieces exist: C09_model_*, C11_invariant), the references, members with the own-rows right only (#19), "
+                  "and the partial convergence theorem for the code as it is. For the code as it is statement C03 is refuted by decide-checked model traces, each replayed on real instances: "
                   "right required depends on the local author (#19), references fetched only for winning rows and absent from the daily hash (#30), deletion records of one answer keyed by row id (new), "
-                  "converged state depending on the pull order because ingestion ignores deletion records (#18). "
+                  "room summary comparing the first entity only (new), converged state depending on the pull order because ingestion ignores deletion records (#18). "
                   "The executable model (Defects.asImplemented) is tied to /repo by running both on the same generated multi-peer histories and comparing all tables of all peers after every op.")
     level_note = ("Trusted: Lean kernel (+propext, Classical.choice, Quot.sound), the hand-written model lean/DiscretModel/Model/Sync.lean (+DailyLog.lean) and the harness. "
                   "Modelled and exercised: synchronise_room / synchronise_day, process_inbound's data queries, filter_existing, add_nodes/validate_node, add_edges, delete_nodes, delete_edges, the daily log. "
                   "Not covered: room-definition changes during a case, QUIC transport, batching by byte size (cases are small), interruption between batches; "
-                  "the refinement pull(Defects.none) = join is stated in DESIGN but not proved.")
+                  "the refinement pull = join is proved per pull under stated hypotheses (C03_refines_pull), not yet as one induction over whole schedules.")
     trusted_base = [
         "hand-written model lean/DiscretModel/Model/Sync.lean, tied by the correspondence run (dv-sync vs dmodel_sync)",
         "harness/sync: real instances; the puller's QueryService is connected by tokio channels to InboundQueryService::process_inbound of the serving instance; add-only hook LocalPeerService::verif_synchronise_room",
@@ -36,12 +42,12 @@ class C03(Cfg):
     ]
     assumptions = [
         "rooms, members and rights are fixed during a case; every row carries a room",
-        "convergence theorems are about the join; the code's pull is related to it by the correspondence run and the witnesses only",
+        "convergence theorems are about the join; the model's pull with five switches off is proved equal to it (C03_refines_pull); the code as it is is related to it by the correspondence run and the witnesses",
     ]
 
     def streams(self, tier, seed, work, dv):
         res = []
-        n, ln = (40, 18) if tier == "quick" else (1200, 26)
+        n, ln = (22, 18) if tier == "quick" else (1200, 26)
         path = os.path.join(work, "hist_C03.ops")
         lib.sh([dv, "gen", "--prop", "C03", "--seed", str(seed), "--n", str(n), "--len", str(ln), "--out", path], check=True)
         res.append(("histories C03 seed=%d n=%d" % (seed, n), path, False))
